@@ -44,6 +44,12 @@ Expand1Viol(r) ==
        \cup (IF r.reapplied = <<r.op>> THEN {} ELSE {"reapply"})
        \* ... also when the capturing hook is handed over by reference
        \cup (IF "reapplied_ref" \in DOMAIN r /\ r.reapplied_ref # <<r.op>> THEN {"reapply"} ELSE {})
+       \* ... and through the Replace adapter (ops that consume something on every side they name)
+       \cup (IF "reapplied_replace" \in DOMAIN r
+                /\ (CASE r.op[1] = 0 -> r.op[3] > 0 [] r.op[1] = 1 -> r.op[3] > 0 [] r.op[1] = 2 -> r.op[5] > 0
+                       [] OTHER -> r.op[3] > 0 /\ r.op[5] > 0)
+                /\ r.reapplied_replace # <<r.op>>
+             THEN {"reapply"} ELSE {})
 
 (* whole-diff iteration = concatenation of the per-op expansions, and each  *)
 (* per-op expansion is the expected one                                     *)
